@@ -814,3 +814,29 @@ def actor_removal_with_stop(ctx, rid: str) -> None:
                  f"'{stmt_text(rm)}' removes a child from the actor map, but {why}; whatever that child created (its own actors, timers, services) "
                  f"can no longer be reached by an ancestor's stop()", rm)
     c.floor(rid, "removals from an _actors map", n, 4)
+
+
+def restore_every_id(ctx, rid: str) -> None:
+    """from_snapshot re-activates every persisted configuration id (or raises): the loop iterates the persisted list as
+    written and each iteration adds the state."""
+    c, p = ctx.c, ctx.p
+    fs = p.method("BaseInterpreter", "from_snapshot")
+    g_fs = cfg_of(fs.node)
+    adds = [w for w in attr_writes(fs) if w.attr == CONFIG_ATTR and w.op == "call:add"]
+    loops = [l for l in own_nodes(fs.node) if isinstance(l, ast.For) and any(any(w.node is x for x in ast.walk(l)) for w in adds)]
+    c.need(loops, "restore loop of from_snapshot")
+    lp = loops[0]
+    itname = lp.iter.id if isinstance(lp.iter, ast.Name) else None
+    defs = [a for a in assignments_to(fs, itname) if isinstance(a, (ast.Assign, ast.AnnAssign))] if itname else []
+    direct = bool(itname) and len(defs) == 1 and "snapshot" in norm(defs[0].value) and not any(
+        isinstance(y, (ast.ListComp, ast.GeneratorExp, ast.SetComp)) or (isinstance(y, ast.Call) and norm(y.func) == "filter") for y in ast.walk(defs[0].value))
+    c.ob(rid, direct or (itname is None and "snapshot" in norm(lp.iter)), fs, "restore-iterates-persisted-ids",
+         "the restore loop iterates the persisted configuration as written" if direct else
+         f"the ids handed to the restore loop are re-assigned / filtered after being read from the snapshot ({len(defs)} assignments of "
+         f"'{itname}'): a persisted active state can be dropped on restore (e.g. a childless compound leaf that is not in state_ids), leaving a "
+         f"parallel state with a missing region", lp)
+    hdr = g_fs.nodes_of(lp)[0]
+    addn = [n for w in adds for n in cfg_node_of(fs, w.node)]
+    ok = unconditional_in_loop(g_fs, hdr, addn)
+    c.ob(rid, ok, fs, "restore-adds-every-id", "every iteration of the restore loop adds the state or raises" if ok else
+         "an iteration of the restore loop can complete without adding the persisted state (and without raising)", lp)
